@@ -358,13 +358,13 @@ def rrule(rng, e, dec) -> dict:
         toks = ["if"] + props[0]
         for o, q in zip(ops, props[1:]):
             toks += [o] + q
-    toks += ["then"] + prop(rng.choice(outs))[: None]
+    def cprop(v):       # `any` is not a term of a conclusion: the variable's own first term stands in for it
+        q = prop(v)
+        return [t if t != "any" else v["terms"][0]["name"] for t in q]
+
+    toks += ["then"] + cprop(rng.choice(outs))
     if len(outs) > 1 and rng.random() < 0.3:
-        toks += ["and"] + prop(rng.choice(outs))
-    toks = [t for t in toks]
-    # `any` is not a term of a conclusion
-    k = toks.index("then")
-    toks = toks[:k] + [t if t != "any" else outs[0]["terms"][0]["name"] for t in toks[k:]]
+        toks += ["and"] + cprop(rng.choice(outs))
     return {"toks": toks, "w": rheight(rng, dec) if rng.random() < 0.4 else dict(ONE)}
 
 
@@ -374,13 +374,16 @@ def rengine(rng: random.Random, dec: int, k: int, wide: bool = False) -> dict:
     e = {"name": rng.choice(["", "engine", f"e{k}"]), "desc": rng.choice([[], ["seeded", "engine", str(k)]]), "inputs": [], "outputs": [], "blocks": []}
     if wide:
         e["desc"] = [f"word{j}" for j in range(rng.randint(30, 60))]
-    names = iter(["alpha", "beta", "gamma", "power", "speed", "tip", "delta", "omega", "kappa", "sigma", "theta", "lambda_"])
+    # (names are identifiers; some are also reserved words of Python - `lambda`, `class`, `pass` - which is no concern of the language)
+    names = iter(["alpha", "lambda", "gamma", "power", "class", "tip", "delta", "omega", "kappa", "sigma", "theta", "beta"])
+    KW = ["pass", "return", "None", "global"]
+    tname = lambda pre, j: KW[j % 4] if rng.random() < 0.12 else f"{pre}{j}"
     nterms = (lambda: rng.choice([7, 8])) if wide else (lambda: rng.choice([0, 1, 2, 3]))
     for _ in range(rng.choice([7, 8, 9]) if wide else rng.choice([0, 1, 2, 2, 3])):
         nm = next(names)
         e["inputs"].append({"name": nm, "desc": rng.choice([[], ["input", nm]]), "enabled": rng.random() < 0.85, "min": rnum(rng, dec, -3, 0), "max": rnum(rng, dec, 0, 3),
                             "lockRange": rng.random() < 0.3,
-                            "terms": [rterm(rng, f"t{j}", dec, [c for c in list(ATTRS) + ["Discrete"] if c != "Constant"], wide=wide) for j in range(nterms())]})
+                            "terms": [rterm(rng, tname("t", j), dec, [c for c in list(ATTRS) + ["Discrete"] if c != "Constant"], wide=wide) for j in range(nterms())]})
     invars = tuple(v["name"] for v in e["inputs"]) or ("x",)
     for _ in range(rng.choice([0, 1, 1, 2])):
         nm = next(names)
@@ -390,7 +393,7 @@ def rengine(rng: random.Random, dec: int, k: int, wide: bool = False) -> dict:
                              "aggr": rng.choice(["none"] + SNORMS),
                              "defuzz": (rng.choice([{"cls": "none", "res": 0, "type": ""}] + [{"cls": c, "res": 0, "type": ty} for c in WEIGHTED for ty in ("Automatic", "TakagiSugeno", "Tsukamoto")])
                                         if ts else rng.choice([{"cls": c, "res": r, "type": ""} for c in INTEGRAL for r in (1000, 100, 7, 1000)])),
-                             "terms": [rterm(rng, f"u{j}", dec, (["Constant", "Linear", "Function", "Ramp", "Sigmoid"] if ts else None), invars, wide=wide) for j in range(nterms())]})
+                             "terms": [rterm(rng, tname("u", j), dec, (["Constant", "Linear", "Function", "Ramp", "Sigmoid"] if ts else None), invars, wide=wide) for j in range(nterms())]})
     for bi in range(rng.choice([0, 1, 1, 2])):
         act = rng.choice([{"cls": "none", "n": 0, "thr": dict(NONUM), "cmp": ""}, {"cls": "General", "n": 0, "thr": dict(NONUM), "cmp": ""}, {"cls": "Proportional", "n": 0, "thr": dict(NONUM), "cmp": ""},
                           {"cls": rng.choice(["First", "Last"]), "n": rng.randint(0, 4), "thr": rnum(rng, dec, 0, 1, special=0), "cmp": ""},
